@@ -8,6 +8,10 @@ from edgegraph.structure import Vertex
 W_CACHE = {"NV": 2, "NE": 3, "SV1": 3, "SV2": 3, "A2L": 1.5, "RFL": 1.5, "LAV": 1.5, "LUF": 1.5, "LFT": 2, "UNL": 2,
            "CACHE": 2, "NU": 0.3, "UAV": 0.3}
 KEYS = [("Fwd", "UNb", None), ("Bwd", "UNb", None), ("AnyDir", "UErr", None), ("Fwd", "UNon", 2), ("Fwd", "UErr", None)]
+# sibling filters under ONE (direction, unknown) setting: distinct callables that share a code object (ids 0-2) or a
+# method (ids 3-4) - the memo must key on the callable's identity, nothing coarser
+SIBLINGS = [("Fwd", "UNon", 0), ("Fwd", "UNon", 1), ("AnyDir", "UNb", 3), ("AnyDir", "UNb", 4), ("AnyDir", "UNb", 2)]
+KEYS = KEYS + SIBLINGS
 TRAVS = ["BFT", "DFR", "DFI"]
 
 
@@ -95,7 +99,7 @@ class CacheHistory(Leg):
                     vs = [i for i, k in enumerate(ks) if k in H.VERTEX_KINDS]
                     if rng.random() < 0.45:
                         if rng.random() < 0.85:
-                            k = rng.choice(KEYS[:3] if rng.random() < 0.7 else KEYS)
+                            k = rng.choice(KEYS[:3] if rng.random() < 0.6 else KEYS)
                             op = ["QNB", rng.choice(vs), k[0], k[1], k[2]]
                         else:
                             op = ["QTR", rng.choice(TRAVS), rng.choice(vs)]
@@ -128,7 +132,7 @@ class CacheHistory(Leg):
                 op = ["NE", rng.choice(H.LINK_KINDS), rng.randrange(nv), rng.randrange(nv)]
                 w.do(op)
                 ops.append(op)
-            keys = rng.sample(KEYS[:4], rng.randint(1, 2))
+            keys = rng.sample(KEYS[:4], rng.randint(1, 2)) if rng.random() < 0.6 else rng.sample([KEYS[3]] + SIBLINGS, 3)
             ops.append(["CACHE", True])
             w.do(ops[-1])
             warm = [["QNB", v, k[0], k[1], k[2]] for v in range(nv) for k in keys]
